@@ -26,7 +26,7 @@ ASSUMPTIONS = [
 
 
 QUICK_BUDGET = {"cases": 640, "deadline_s": 170, "case_timeout_s": 60, "floors": {"lib_status_rows": 2000, "cli_status_rows": 93, "cli_submissions": 20}}
-THOROUGH_FACTOR = 30  # thorough = the same workload with 30x the cases (floors scale along)
+THOROUGH_FACTOR = 20  # thorough = the same workload with 20x the cases (floors scale along)
 
 
 def budget(tier):
